@@ -22,26 +22,22 @@ Definition touched (c : cond) : cond :=
 Lemma facts_touch c : touch_cond facts c = touched c.
 Proof. reflexivity. Qed.
 
-Definition touch_state (s : state) : state := set_conds s (map touched (conds s)).
-
-(* save: get_conditions has already rewritten the solver's own condition dictionaries when
-   dill.dump runs -- whether or not it then succeeds *)
-Lemma facts_save s ok :
-  save facts s ok = (touch_state s, if ok then Some (mkfile facts (touch_state s)) else None).
+(* save: get_conditions works on copies, the solver is left alone whether or not dill.dump
+   then succeeds; the file holds the solver's objects as they are *)
+Lemma facts_save s ok : save facts s ok = (s, if ok then Some (mkfile facts s) else None).
 Proof. reflexivity. Qed.
 
-(* load of a file written by save: every field but lowest_loss comes back; for the bundle solver
-   the loss function is not passed on and the equations are wrapped a second time *)
+(* load of a file written by save: every modelled field comes back, lowest_loss included; the
+   bundle constructor wraps the saved wrapper once more and hands it ALL bundle parameters *)
 Definition after_load (s : state) : state :=
-  mkState (kind s) (nets s) (opt s) (train_hist s) (valid_hist s) None (best s) (conds s)
-          (match kind s with KBundle => 0 | _ => loss_id s end)
+  mkState (kind s) (nets s) (opt s) (train_hist s) (valid_hist s) (lowest s) (best s) (conds s) (loss_id s)
           (match kind s with KBundle => n_params s | _ => 0 end)
-          (match kind s with KBundle => [] :: eqs s | _ => eqs s end).
+          (match kind s with KBundle => seq 0 (n_params s) :: eqs s | _ => eqs s end).
 
 Lemma facts_load s : load facts (mkfile facts s) = Some (after_load s).
 Proof. destruct s as [k n o th vh lo be co li np eq]. destruct k; vm_compute; reflexivity. Qed.
 
-Lemma save_load s f : snd (save facts s true) = Some f -> load facts f = Some (after_load (touch_state s)).
+Lemma save_load s f : snd (save facts s true) = Some f -> load facts f = Some (after_load s).
 Proof. rewrite facts_save. cbn [snd]. intros H. inversion H. apply facts_load. Qed.
 
 (* ------------------------------------------------------------------ dictionaries *)
@@ -118,43 +114,21 @@ Proof.
 Qed.
 
 (* ------------------------------------------------------------------ T1: save and the solver in memory *)
-Lemma save_keeps_everything_but_conditions s ok :
-  let s' := fst (save facts s ok) in
-  kind s' = kind s /\ nets s' = nets s /\ opt s' = opt s /\ train_hist s' = train_hist s /\
-  valid_hist s' = valid_hist s /\ lowest s' = lowest s /\ best s' = best s /\ loss_id s' = loss_id s /\
-  n_params s' = n_params s /\ eqs s' = eqs s /\
-  conds s' = map touched (conds s) /\
-  (Forall plain_cond (conds s) -> map cond_sem (conds s') = map cond_sem (conds s)).
-Proof.
-  rewrite facts_save. cbn [fst touch_state set_conds kind nets opt train_hist valid_hist lowest best conds loss_id n_params eqs].
-  repeat split; try reflexivity.
-  intros Hall. rewrite map_map. apply map_ext_in. intros c Hc. apply cond_sem_touched.
-  rewrite Forall_forall in Hall. now apply Hall.
-Qed.
-
-Lemma save_preserves_when_stable s ok :
-  (forall c, In c (conds s) -> touched c = c) -> fst (save facts s ok) = s.
-Proof.
-  intros H. rewrite facts_save. cbn [fst]. unfold touch_state.
-  replace (map touched (conds s)) with (conds s).
-  - destruct s; reflexivity.
-  - rewrite <- (map_id (conds s)) at 1. apply map_ext_in. intros c Hc. symmetry. now apply H.
-Qed.
+Lemma save_preserves s ok : fst (save facts s ok) = s.
+Proof. rewrite facts_save. reflexivity. Qed.
 
 Lemma save_idempotent s ok ok' : fst (save facts (fst (save facts s ok)) ok') = fst (save facts s ok).
-Proof.
-  apply save_preserves_when_stable. intros c Hc. rewrite facts_save in Hc. cbn [fst touch_state set_conds conds] in Hc.
-  apply in_map_iff in Hc as [c0 [E _]]. subst c. apply touched_idem.
-Qed.
+Proof. now rewrite !save_preserves. Qed.
 
-(* whatever the source does, working on a copy is enough for the full statement *)
+(* whatever else the source does, working on a copy is enough *)
 Lemma save_preserves_if_copy sf s ok : sf_aliased sf = false -> fst (save sf s ok) = s.
 Proof. intros H. unfold save. rewrite H. reflexivity. Qed.
 
-(* ------------------------------------------------------------------ T2/T3: load after save *)
-Definition solution (s : state) (use_best : bool) : option (list Z) * list cond :=
-  (if use_best then best s else Some (nets s), map cond_sem (conds s)).
+(* the descriptive copy that goes into diff_equation_details is still the rewritten dictionary *)
+Lemma described_conditions_idempotent c : touched (touched c) = touched c.
+Proof. apply touched_idem. Qed.
 
+(* ------------------------------------------------------------------ T2/T3: load after save *)
 Lemma load_save_history s f :
   snd (save facts s true) = Some f ->
   exists l, load facts f = Some l /\ kind l = kind s /\ train_hist l = train_hist s /\ valid_hist l = valid_hist s
@@ -164,53 +138,50 @@ Proof.
   destruct s; repeat split; reflexivity.
 Qed.
 
-Lemma load_save_solutions_plain s f :
-  Forall plain_cond (conds s) ->
+(* every condition, function-valued or not, comes back as it was *)
+Lemma load_save_solutions s f :
   snd (save facts s true) = Some f ->
-  exists l, load facts f = Some l /\ forall b, solution l b = solution s b.
+  exists l, load facts f = Some l /\ nets l = nets s /\ best l = best s /\ conds l = conds s
+            /\ forall b, solution l b = solution s b.
 Proof.
-  intros Hp H. rewrite (save_load s f H). eexists. split; [reflexivity|].
-  intros b. unfold solution, after_load, touch_state, set_conds. cbn [best nets conds]. f_equal.
-  rewrite map_map. apply map_ext_in. intros c Hc. apply cond_sem_touched. rewrite Forall_forall in Hp. now apply Hp.
+  intros H. rewrite (save_load s f H). eexists. split; [reflexivity|].
+  destruct s; repeat split; reflexivity.
 Qed.
 
-(* nets and best nets come back for every solver, also with function-valued conditions *)
-Lemma load_save_nets s f :
-  snd (save facts s true) = Some f ->
-  exists l, load facts f = Some l /\ nets l = nets s /\ best l = best s.
+(* ---- equations and loss function *)
+Lemma pick_seq {B} (pre r : list B) : pick (seq (length pre) (length r)) (pre ++ r) = Some r.
 Proof.
-  intros H. rewrite (save_load s f H). eexists. split; [reflexivity|]. destruct s; split; reflexivity.
+  revert pre. induction r as [|x r IH]; intros pre; [reflexivity|].
+  cbn [length seq pick]. rewrite nth_error_app2 by lia. rewrite Nat.sub_diag. cbn [nth_error].
+  replace (pre ++ x :: r) with ((pre ++ [x]) ++ r) by (rewrite <- app_assoc; reflexivity).
+  replace (S (length pre)) with (length (pre ++ [x])) by (rewrite app_length; cbn; lia).
+  now rewrite IH.
 Qed.
 
-(* equations and loss function: kept for Solver1D / Solver2D *)
-Lemma load_keeps_config_nonbundle s f :
-  kind s <> KBundle ->
-  snd (save facts s true) = Some f ->
-  exists l, load facts f = Some l /\ loss_id l = loss_id s /\ eqs l = eqs s.
+Lemma pick_all {B} (ps : list B) : pick (seq 0 (length ps)) ps = Some ps.
+Proof. exact (pick_seq [] ps). Qed.
+
+Lemma forallb_seq_lt n : forallb (fun i => Nat.ltb i n) (seq 0 n) = true.
 Proof.
-  intros Hk H. rewrite (save_load s f H). eexists. split; [reflexivity|].
-  destruct s as [k n o th vh lo be co li np eq]. cbn [kind] in Hk.
-  destruct k; try contradiction; split; reflexivity.
+  apply forallb_forall. intros i Hi. apply in_seq in Hi. apply Nat.ltb_lt. lia.
 Qed.
 
-(* BundleSolver1D: fine only when no equation parameter is routed and the loss is the default *)
-Lemma load_bundle_plain s f :
-  kind s = KBundle -> eqs s = [[]] -> loss_id s = 0 ->
+Lemma load_keeps_config s f :
   snd (save facts s true) = Some f ->
-  exists l, load facts f = Some l /\ loss_id l = 0 /\ trainable l = true.
+  exists l, load facts f = Some l /\ loss_id l = loss_id s
+    /\ (forall (B : Type) (ps : list B), length ps = n_params s -> select (eqs l) ps = select (eqs s) ps)
+    /\ (kind s = KBundle -> n_params l = n_params s /\ trainable l = trainable s)
+    /\ (kind s <> KBundle -> eqs l = eqs s).
 Proof.
-  intros Hk He Hl H. rewrite (save_load s f H). eexists. split; [reflexivity|].
-  destruct s as [k n o th vh lo be co li np eq]. cbn [kind eqs loss_id] in *. subst. split; reflexivity.
+  intros H. rewrite (save_load s f H). eexists. split; [reflexivity|].
+  destruct s as [k n o th vh lo be co li np eq]. unfold after_load, trainable. cbn [kind loss_id eqs n_params].
+  split; [reflexivity|]. split; [|split].
+  - intros B ps Hl. destruct k; try reflexivity. cbn [select]. rewrite <- Hl, pick_all. reflexivity.
+  - intros ->. split; [reflexivity|]. cbn [eqs_ok]. now rewrite forallb_seq_lt, seq_length.
+  - intros Hk. destruct k; try reflexivity. contradiction.
 Qed.
 
 (* ------------------------------------------------------------------ T4: best tracking after load *)
-Definition tracks_from (k : nat) (s : state) : Prop :=
-  match lowest s with
-  | None => skipn k (valid_hist s) = []
-  | Some l => In l (skipn k (valid_hist s)) /\ Forall (fun v => Qle l v) (skipn k (valid_hist s))
-  end.
-Definition tracks (s : state) : Prop := tracks_from 0 s.
-
 Lemma skipn_snoc {B} k (l : list B) x : k <= length l -> skipn k (l ++ [x]) = skipn k l ++ [x].
 Proof.
   intros H. rewrite skipn_app. replace (k - length l) with 0 by lia. reflexivity.
@@ -251,25 +222,14 @@ Qed.
 Lemma fit_tracks_whole s es : tracks s -> tracks (fit s es).
 Proof. apply fit_tracks. lia. Qed.
 
-(* after load, tracking refers to the lowest loss SINCE LOADING only *)
-Lemma resume_best_since_load s f es :
-  snd (save facts s true) = Some f ->
-  exists l, load facts f = Some l /\ tracks_from (length (valid_hist s)) (fit l es).
-Proof.
-  intros H. rewrite (save_load s f H). eexists. split; [reflexivity|].
-  apply fit_tracks.
-  - destruct s; cbn. lia.
-  - unfold tracks_from, after_load, touch_state, set_conds. cbn [lowest valid_hist]. apply skipn_all.
-Qed.
-
-(* with no epoch before the save nothing is lost *)
-Lemma resume_best_fresh s f es :
-  valid_hist s = [] ->
+(* after load, best tracking still refers to the lowest loss of the WHOLE history *)
+Lemma resume_best s f es :
+  tracks s ->
   snd (save facts s true) = Some f ->
   exists l, load facts f = Some l /\ tracks (fit l es).
 Proof.
-  intros Hv H. destruct (resume_best_since_load s f es H) as [l [Hl Ht]]. exists l. split; [exact Hl|].
-  rewrite Hv in Ht. exact Ht.
+  intros Ht H. rewrite (save_load s f H). eexists. split; [reflexivity|].
+  apply fit_tracks_whole. destruct s; exact Ht.
 Qed.
 
 (* ------------------------------------------------------------------ T5: any number of save / load / fit cycles *)
@@ -291,18 +251,25 @@ Proof.
     rewrite <- !app_assoc. repeat split; reflexivity.
 Qed.
 
+Lemma fit_conds es : forall s, conds (fit s es) = conds s /\ loss_id (fit s es) = loss_id s.
+Proof.
+  induction es as [|e es IH]; intros s; [split; reflexivity|].
+  cbn [fit fold_left]. destruct (IH (run_epoch s e)) as [H1 H2]. unfold fit in *. rewrite H1, H2. split; reflexivity.
+Qed.
+
 Lemma run_op_total s o :
   exists s', run_op facts s o = Some s'
     /\ train_hist s' = train_hist s ++ op_train o
     /\ valid_hist s' = valid_hist s ++ op_valid o
     /\ nets s' = op_nets (nets s) o
-    /\ kind s' = kind s.
+    /\ kind s' = kind s /\ conds s' = conds s /\ loss_id s' = loss_id s /\ (tracks s -> tracks s').
 Proof.
   destruct o as [ok| |es]; cbn [run_op op_train op_valid op_nets].
-  - eexists. split; [reflexivity|]. rewrite facts_save. cbn [fst]. destruct s; cbn. now rewrite !app_nil_r.
+  - eexists. split; [reflexivity|]. rewrite save_preserves. rewrite !app_nil_r. repeat split; auto.
   - rewrite facts_save. cbn [snd]. rewrite facts_load. eexists. split; [reflexivity|].
-    destruct s; cbn. now rewrite !app_nil_r.
-  - eexists. split; [reflexivity|]. apply fit_hist.
+    destruct s; cbn. rewrite !app_nil_r. repeat split; auto.
+  - eexists. split; [reflexivity|]. destruct (fit_hist es s) as [H1 [H2 [H3 H4]]]. destruct (fit_conds es s) as [H5 H6].
+    repeat split; auto. apply fit_tracks_whole.
 Qed.
 
 Lemma cycles ops : forall s,
@@ -311,33 +278,42 @@ Lemma cycles ops : forall s,
     /\ valid_hist s' = valid_hist s ++ flat_map op_valid ops
     /\ global_epoch s' = global_epoch s + length (flat_map op_train ops)
     /\ nets s' = fold_left op_nets ops (nets s)
-    /\ kind s' = kind s.
+    /\ kind s' = kind s /\ conds s' = conds s /\ loss_id s' = loss_id s /\ (tracks s -> tracks s').
 Proof.
   induction ops as [|o ops IH]; intros s.
   - exists s. cbn. rewrite !app_nil_r. repeat split; auto.
-  - destruct (run_op_total s o) as [s1 [H1 [Ht [Hv [Hn Hk]]]]].
-    destruct (IH s1) as [s' [H' [Ht' [Hv' [Hg' [Hn' Hk']]]]]].
+  - destruct (run_op_total s o) as [s1 [H1 [Ht [Hv [Hn [Hk [Hc [Hl Htr]]]]]]]].
+    destruct (IH s1) as [s' [H' [Ht' [Hv' [Hg' [Hn' [Hk' [Hc' [Hl' Htr']]]]]]]]].
     exists s'. cbn [run_ops flat_map fold_left]. rewrite H1. split; [exact H'|].
-    rewrite Ht', Hv', Ht, Hv, Hn', Hn, Hk', Hk, <- !app_assoc. repeat split; try reflexivity.
-    unfold global_epoch. rewrite Ht', Ht, !app_length. lia.
+    rewrite Ht', Hv', Ht, Hv, Hn', Hn, Hk', Hk, Hc', Hc, Hl', Hl, <- !app_assoc. repeat split; try reflexivity.
+    + unfold global_epoch. rewrite Ht', Ht, !app_length. lia.
+    + auto.
 Qed.
 
 (* ------------------------------------------------------------------ non-vacuity *)
 Definition demo_cond : cond := mkCond 3 [("t_0"%string, ANum 0 1); ("u_0"%string, ANum 1 2); ("u_0_prime"%string, ANone)].
 Definition demo : state := mkState K1D [11%Z] 5%Z [(3#1)%Q; (2#1)%Q] [(4#1)%Q; (1#1)%Q] (Some (1#1)%Q) (Some [11%Z]) [demo_cond] 0 0 [].
 
-Example demo_premises : Forall plain_cond (conds demo) /\ tracks demo /\ exists f, snd (save facts demo true) = Some f.
+Example demo_premises : tracks demo /\ exists f, snd (save facts demo true) = Some f.
 Proof.
-  split; [|split].
-  - repeat constructor; intros kv [H|[H|[H|[]]]]; subst; reflexivity.
+  split.
   - unfold tracks, tracks_from, demo. cbn [lowest valid_hist skipn]. split; [right; now left|].
     repeat constructor; discriminate.
   - eexists. reflexivity.
 Qed.
 
+(* a failed save, a save + load, one more (worse) epoch, save + load again: conditions untouched,
+   lowest loss and best nets still those of the second epoch *)
 Example demo_roundtrip :
-  run_ops facts demo [OSave false; OSaveLoad; OFit [mkEpoch (1#2)%Q (1#3)%Q [12%Z] 6%Z]; OSaveLoad]
-  = Some (mkState K1D [12%Z] 6%Z [(3#1)%Q; (2#1)%Q; (1#2)%Q] [(4#1)%Q; (1#1)%Q; (1#3)%Q] None (Some [12%Z])
-            [mkCond 3 [("t_0"%string, ANum 0 1); ("u_0"%string, ANum 1 2); ("u_0_prime"%string, ANone);
-                       ("condition_type"%string, AStr 3)]] 0 0 []).
+  run_ops facts demo [OSave false; OSaveLoad; OFit [mkEpoch (1#2)%Q (3#1)%Q [12%Z] 6%Z]; OSaveLoad]
+  = Some (mkState K1D [12%Z] 6%Z [(3#1)%Q; (2#1)%Q; (1#2)%Q] [(4#1)%Q; (1#1)%Q; (3#1)%Q] (Some (1#1)%Q) (Some [11%Z])
+            [demo_cond] 0 0 []).
 Proof. vm_compute. reflexivity. Qed.
+
+(* a bundle solver routing bundle parameter 1 of 2 into its equation and using a custom loss *)
+Example demo_bundle :
+  let sb := mkState KBundle [7%Z] 5%Z [] [] None None [] 2 2 [[1]] in
+  trainable sb = true /\
+  exists l, run_ops facts sb [OSaveLoad; OSaveLoad] = Some l /\ trainable l = true /\ loss_id l = 2
+            /\ select (eqs l) [10; 20] = Some [20] /\ select (eqs sb) [10; 20] = Some [20].
+Proof. cbv zeta. split; [reflexivity|]. eexists. split; [vm_compute; reflexivity|]. repeat split. Qed.
